@@ -202,4 +202,157 @@ theorem def_ext_welltyped (name cname : String) (T : Ty) (prop : Term) (attrs : 
     simp [Thm.checkThmType, mkProp, Term.checkedGetType, hl, htyped, bind, Except.bind,
       Ty.isFun_fn, Ty.domain?_fn, Ty.range?_fn]
 
+/-! ### non-vacuity: library-style definitions are accepted -/
+
+def tA : Ty := .tvar "a"
+def tB : Ty := .tvar "b"
+def tC : Ty := .tvar "c"
+def eqAt (T : Ty) (a b : Term) : Term := .comb (.comb (.const "equals" (Ty.fn T (Ty.fn T Ty.bool))) a) b
+
+/-- `K x y = x` -/
+def kProp : Term :=
+  eqAt tA (.comb (.comb (.const "K" (Ty.fn tA (Ty.fn tB tA))) (.var "x" tA)) (.var "y" tB)) (.var "x" tA)
+
+/-- `comp f g x = f (g x)` -/
+def compT : Ty := Ty.fn (Ty.fn tB tC) (Ty.fn (Ty.fn tA tB) (Ty.fn tA tC))
+def compProp : Term :=
+  eqAt tC (.comb (.comb (.comb (.const "comp" compT) (.var "f" (Ty.fn tB tC))) (.var "g" (Ty.fn tA tB))) (.var "x" tA))
+    (.comb (.var "f" (Ty.fn tB tC)) (.comb (.var "g" (Ty.fn tA tB)) (.var "x" tA)))
+
+/-- `(zero::int) = of_nat (zero::nat)`: the overloaded constant at another instance on the right -/
+def zeroIntProp : Term :=
+  eqAt (.con "int" []) (.const "zero" (.con "int" []))
+    (.comb (.const "of_nat" (Ty.fn (.con "nat" []) (.con "int" []))) (.const "zero" (.con "nat" [])))
+
+example : defOK "K" (Ty.fn tA (Ty.fn tB tA)) kProp = true := by decide
+example : defOK "comp" compT compProp = true := by decide
+example : defOK "zero" (.con "int" []) zeroIntProp = true := by decide
+example : Conservative "comp" compT compProp := def_conservative _ _ _ (by decide) (by decide)
+example : Conservative "zero" (.con "int" []) zeroIntProp := def_conservative _ _ _ (by decide) (by decide)
+example : ∃ th, Ext.theorem "comp_def" th ∈ getExtension "comp" "comp" compT compProp ["hint_rewrite"] ∧
+    Thm.checkThmType th = true ∧ Ext.constant "comp" compT "comp" ∈ getExtension "comp" "comp" compT compProp ["hint_rewrite"] :=
+  def_ext_welltyped "comp" "comp" compT compProp ["hint_rewrite"] (by decide)
+
+/-! ### each side condition is needed -/
+
+/-- every type variable has one element -/
+def oneModel : Model := ⟨fun _ => 0, fun _ => 0, fun _ _ => 0⟩
+def ρ0 : Valuation := fun _ _ _ => 0
+theorem ρ0_adm : Admissible oneModel ρ0 := fun _ _ T => Model.size_pos _ T
+
+def cB : Term := .const "c" Ty.bool
+/-- `∀p::bool. p` (falsity, from the logical constants only) -/
+def falseT : Term := .comb (.const "all" (Ty.fn (Ty.fn Ty.bool Ty.bool) Ty.bool)) (.abs "p" Ty.bool (.bound 0))
+
+/-- `c ⟷ (c ⟶ ∀p. p)`, i.e. `c ⟷ ¬c` -/
+def selfRefProp : Term := eqAt Ty.bool cB (Term.mkImplies cB falseT)
+
+theorem sat_nil_iff (M : Model) (ρ : Valuation) (p : Term) :
+    Sat M ρ ⟨[], p⟩ ↔ ∀ ρ2, Admissible M ρ2 → (∀ n S, ρ2 2 n S = ρ 2 n S) → sem M ρ2 [] [] p = 1 :=
+  ⟨fun h ρ2 h1 h2 => h ρ2 h1 h2 (fun _ hm => by cases hm), fun h ρ2 h1 h2 _ => h ρ2 h1 h2⟩
+
+/-- (4) Without "the constant does not occur on the right": `def c :: bool, c ⟷ ¬c` has no
+interpretation at all. `Definition.parse` rejects it (constant occurs in rhs). -/
+theorem selfref_counterexample : ¬ Conservative "c" Ty.bool selfRefProp := by
+  intro h
+  obtain ⟨c, hc, hs⟩ := h oneModel ρ0 ρ0_adm
+  have hc2 : c < 2 := by rwa [Model.size_bool] at hc
+  have := (sat_nil_iff _ _ _).1 hs (ρ0.update 2 "c" Ty.bool c) (ρ0_adm.update 2 "c" Ty.bool c hc)
+    (fun _ _ => rfl)
+  obtain rfl | rfl : c = 0 ∨ c = 1 := by omega
+  · revert this; decide
+  · revert this; decide
+
+example : defOK "c" Ty.bool selfRefProp = false := by decide
+
+/-- `∀x y::α. x = y` -/
+def allEq (α : Ty) : Term :=
+  .comb (.const "all" (Ty.fn (Ty.fn α Ty.bool) Ty.bool)) (.abs "x" α
+    (.comb (.const "all" (Ty.fn (Ty.fn α Ty.bool) Ty.bool)) (.abs "y" α (eqAt α (.bound 1) (.bound 0)))))
+
+/-- the instance of `c ⟷ (∀x y::'a. x = y)` at `'a := α` -/
+def tvProp (α : Ty) : Term := eqAt Ty.bool cB (allEq α)
+
+/-- several type instances of a defining equation that share the type of the defined constant
+have a common interpretation -/
+def ConservativeAt (name : String) (T : Ty) (props : List Term) : Prop :=
+  ∀ M ρ, Admissible M ρ → ∃ c, c < M.size T ∧ ∀ p ∈ props, Sat M (ρ.update 2 name T c) ⟨[], p⟩
+
+/-- (3) Without "type variables of the right-hand side occur in the type of the constant":
+`def c :: bool, c ⟷ (∀x y::'a. x = y)` — the instances at a one-element type and at `bool` ask
+for `c = true` and `c = false`. `Definition.parse` rejects it (extra type variables in rhs). -/
+theorem extra_tvar_counterexample : ¬ ConservativeAt "c" Ty.bool [tvProp tA, tvProp Ty.bool] := by
+  intro h
+  obtain ⟨c, hc, hs⟩ := h oneModel ρ0 ρ0_adm
+  have hc2 : c < 2 := by rwa [Model.size_bool] at hc
+  have hadm := ρ0_adm.update 2 "c" Ty.bool c hc
+  have h1 := (sat_nil_iff _ _ _).1 (hs (tvProp tA) (by simp)) _ hadm (fun _ _ => rfl)
+  have h2 := (sat_nil_iff _ _ _).1 (hs (tvProp Ty.bool) (by simp)) _ hadm (fun _ _ => rfl)
+  obtain rfl | rfl : c = 0 ∨ c = 1 := by omega
+  · revert h1; decide
+  · revert h2; decide
+
+example : defOK "c" Ty.bool (tvProp tA) = false := by decide
+
+/-- `c ⟷ y` with a free variable `y` -/
+def freeVarProp : Term := eqAt Ty.bool cB (.var "y" Ty.bool)
+
+/-- (2) Without "no other free variables on the right": `def c :: bool, c ⟷ y`; the same with a
+schematic variable `?y`. `Definition.parse` rejects both. -/
+theorem free_var_counterexample : ¬ Conservative "c" Ty.bool freeVarProp := by
+  intro h
+  obtain ⟨c, hc, hs⟩ := h oneModel ρ0 ρ0_adm
+  have hc2 : c < 2 := by rwa [Model.size_bool] at hc
+  have hadm := ρ0_adm.update 2 "c" Ty.bool c hc
+  have := (sat_nil_iff _ _ _).1 hs ((ρ0.update 2 "c" Ty.bool c).update 1 "y" Ty.bool (1 - c))
+    (hadm.update 1 "y" Ty.bool (1 - c) (by rw [Model.size_bool]; omega))
+    (fun n S => by simp [Valuation.update])
+  obtain rfl | rfl : c = 0 ∨ c = 1 := by omega
+  · revert this; decide
+  · revert this; decide
+
+example : defOK "c" Ty.bool freeVarProp = false := by decide
+example : defOK "c" Ty.bool (eqAt Ty.bool cB (.svar "y" Ty.bool)) = false := by decide
+
+def tBB : Ty := Ty.fn Ty.bool Ty.bool
+/-- `c (f x) ⟷ x` -/
+def nonVarArgProp : Term :=
+  eqAt Ty.bool (.comb (.const "c" tBB) (.comb (.var "f" tBB) (.var "x" Ty.bool))) (.var "x" Ty.bool)
+
+/-- (1) Without "the arguments are variables": `def c :: bool ⇒ bool, c (f x) ⟷ x` (take `f`
+constant). `Definition.parse` rejects it (arguments on lhs must be variables). -/
+theorem non_var_arg_counterexample : ¬ Conservative "c" tBB nonVarArgProp := by
+  intro h
+  obtain ⟨c, hc, hs⟩ := h oneModel ρ0 ρ0_adm
+  have hc4 : c < 4 := by
+    have : oneModel.size tBB = 4 := by decide
+    omega
+  have hadm := ρ0_adm.update 2 "c" tBB c hc
+  have := (sat_nil_iff _ _ _).1 hs ((ρ0.update 2 "c" tBB c).update 1 "x" Ty.bool (1 - c % 2))
+    (hadm.update 1 "x" Ty.bool (1 - c % 2) (by rw [Model.size_bool]; omega))
+    (fun n S => by simp [Valuation.update])
+  obtain rfl | rfl | rfl | rfl : c = 0 ∨ c = 1 ∨ c = 2 ∨ c = 3 := by omega
+  all_goals (revert this; decide)
+
+example : defOK "c" tBB nonVarArgProp = false := by decide
+
+def tBBB : Ty := Ty.fn Ty.bool (Ty.fn Ty.bool Ty.bool)
+/-- `c x x ⟷ x` -/
+def repeatedArgProp : Term :=
+  eqAt Ty.bool (.comb (.comb (.const "c" tBBB) (.var "x" Ty.bool)) (.var "x" Ty.bool)) (.var "x" Ty.bool)
+
+/-- (1) Without "the arguments are DISTINCT variables": `def c :: bool ⇒ bool ⇒ bool, c x x ⟷ x`
+is satisfiable but does not define `c`: the first projection (code 12) and the second projection
+(code 10) both satisfy it for every value of `x`, so the equation is a specification, not a
+definition. `Definition.parse` rejects it (variables on lhs must be distinct). -/
+theorem repeated_arg_counterexample :
+    ∃ c1 c2, c1 ≠ c2 ∧ c1 < oneModel.size tBBB ∧ c2 < oneModel.size tBBB ∧
+      ∀ v, v < 2 → holds oneModel ((ρ0.update 1 "x" Ty.bool v).update 2 "c" tBBB c1) repeatedArgProp ∧
+        holds oneModel ((ρ0.update 1 "x" Ty.bool v).update 2 "c" tBBB c2) repeatedArgProp := by
+  refine ⟨12, 10, by decide, by decide, by decide, ?_⟩
+  unfold holds
+  decide
+
+example : defOK "c" tBBB repeatedArgProp = false := by decide
+
 end Holpy.C11
